@@ -96,9 +96,17 @@ func settable(v reflect.Value) reflect.Value {
 	return reflect.NewAt(v.Type(), unsafe.Pointer(v.UnsafeAddr())).Elem()
 }
 
+// lean: values bound for the Coq side keep long strings and 15..17-element containers rare
+// (every byte is a Gallina list element); the oracle-only runs use them freely.
+var lean bool
+
 func randStr(r *vh.Rand) string {
 	n := 0
-	switch r.Intn(12) {
+	k := r.Intn(12)
+	if lean && k >= 3 && k <= 5 && !r.Chance(1, 12) {
+		k = 6
+	}
+	switch k {
 	case 0:
 		n = 0
 	case 1:
@@ -130,7 +138,11 @@ func randLen(r *vh.Rand, depth int) int {
 	if depth > 3 {
 		return r.Intn(2)
 	}
-	switch r.Intn(14) {
+	k := r.Intn(14)
+	if lean && k <= 2 && (depth > 1 || !r.Chance(1, 6)) {
+		k = 6
+	}
+	switch k {
 	case 0:
 		return 15
 	case 1:
@@ -269,6 +281,13 @@ func fill(v reflect.Value, s *Schema, r *vh.Rand, depth int, goName string) {
 				panic(fmt.Sprintf("no field %s in %s", f.Go, v.Type()))
 			}
 			fill(fv, f.T, r, depth+1, f.Go)
+		}
+		// a node/client identity is derived from its public key (SetPublicKey recomputes it)
+		if pk := v.FieldByName("PublicKey"); pk.IsValid() && pk.Kind() == reflect.String && pk.String() == validPK {
+			if id := v.FieldByName("ID"); id.IsValid() && id.Kind() == reflect.String {
+				b, _ := hex.DecodeString(validPK)
+				settable(id).SetString(encryption.Hash(b))
+			}
 		}
 	case "ver":
 		alt := s.Alts[r.Intn(len(s.Alts))]
@@ -576,7 +595,7 @@ func main() {
 		"slices and maps of length 0/15/16/17, nil and non-nil pointers, nil and empty containers, every registered entitywrapper version), marshalled, unmarshalled and marshalled again; " +
 		"mutated inputs (truncation, trailing bytes, permuted/dropped/repeated/unknown keys, bin keys, replaced values) decoded; migrations v(n)->v(n+1) of every wrapper; " +
 		"State Encode/Decode with 0/31/32/33-byte and nil hashes and edge numbers. non-trivial = a value with at least one non-zero field whose bytes are longer than 8, or a mutated input, or a migration; distinct by bytes"
-	cf := &vh.CasesFile{Imports: []string{"Base.Corr", "Model.Msgp", "Model.StateBin", "Gen.MsgpSchema", "Corr.Msgp"}, CaseType: "mpc_case", CheckFn: "mpc_check", Shard: 80}
+	cf := &vh.CasesFile{Imports: []string{"Base.Corr", "Model.Msgp", "Model.StateBin", "Gen.MsgpSchema", "Corr.Msgp"}, CaseType: "mpc_case", CheckFn: "mpc_check", Shard: 45}
 	logging.InitLogging("development", "")
 
 	raw, err := os.ReadFile("../build/gen/msgpschema.json")
@@ -617,6 +636,7 @@ func main() {
 
 	// ---- enc: value -> bytes -> value -> bytes ----
 	doEnc := func(name string, seed uint64, toCoq bool) {
+		lean = toCoq
 		e := entries[name]
 		r := vh.NewRand(seed)
 		c, v := newObj(e)
@@ -663,7 +683,7 @@ func main() {
 				rep.Count("round-trip-loses-data" + sfx)
 			}
 			b2, err := safeMarshal(c2)
-			if err != nil || !bytes.Equal(b1, b2) {
+			if (err != nil || !bytes.Equal(b1, b2)) && r1 == r2 {
 				rep.Violate("C08:re-encoding-differs"+sfx, name+": bytes of the decoded value differ from the original bytes", in)
 			}
 			if err == nil {
@@ -679,6 +699,7 @@ func main() {
 
 	// ---- dec: mutated bytes ----
 	doDec := func(name string, seed uint64, toCoq bool) {
+		lean = toCoq
 		e := entries[name]
 		r := vh.NewRand(seed)
 		c, v := newObj(e)
@@ -694,6 +715,7 @@ func main() {
 
 	// ---- migrations ----
 	doMig := func(name string, seed uint64) {
+		lean = true
 		e := entries[name]
 		s := e.Schema
 		if s.K != "ver" {
@@ -919,6 +941,6 @@ func finish(rep *vh.Report, cf *vh.CasesFile, o vh.Opts) {
 		panic(err)
 	}
 	rep.CaseFiles = files
-	rep.ShardSize = 80
+	rep.ShardSize = 45
 	rep.Write(o.Out)
 }
